@@ -4,8 +4,9 @@
    settleAll) for EVERY design: arbitrary leaf functions, arbitrary widths, arbitrary number of leaves and
    drivers, arbitrary pre-edge state.  The meaning (snapshot-then-apply reference, re-scheduling, side conditions)
    is in Spec/C05.v. *)
+From V Require Import Model.Sort Spec.C04 Proofs.C04.Compose.   (* before Spec.C05: `topo` below is Spec.C05.topo *)
 From V Require Import Base.Bits Gen.WireOps Model.SimKernel Spec.C05
-                      Proofs.C05.ListAux Proofs.C05.Edge Proofs.C05.Split Proofs.C05.Examples.
+                      Proofs.C05.ListAux Proofs.C05.Edge Proofs.C05.Split Proofs.C05.Examples Proofs.C05.Sorted.
 
 (* ---- (1) the post-edge state does not depend on the evaluation order of the sequential blocks ----------------
    ds' = the same drivers in another (dict) order, each with its clockables in another order.  If every wire is
@@ -123,6 +124,46 @@ Theorem C05_clk_single_steps :
     topo (combs d) -> (0 < n)%nat -> clk d n s = clk1_times d n s.
 Proof. exact @clk_as_singles. Qed.
 
+(* ---- (4') composition with C04 (added in session 5): the guard `topo` is what the topological sorter establishes --
+   C04's guard (Spec.C04: `ordered` = every leaf strictly after the leaves that feed it, `single_driver` = NoDup of
+   all out-ports) implies `topo`; conversely `topo` implies `ordered` *)
+Theorem C05_topo_of_ordered : forall cs, ordered cs -> single_driver cs -> topo cs.
+Proof. exact topo_of_ordered_thm. Qed.
+
+Theorem C05_ordered_of_topo : forall cs, topo cs -> ordered cs.
+Proof. exact ordered_of_topo_thm. Qed.
+
+(* so for a design whose combinational list is WHATEVER the model sorter (Model/Sort.v, C04) returned for its
+   instantiation order (succ represents the wire dependencies of the leaves; one driver per wire), no order
+   hypothesis is left: one more propagateAll changes nothing, clk(m+n) = clk n after clk m, clk n = n single steps *)
+Theorem C05_propagateAll_idempotent_sorted :
+  forall (St : Type) (d : design St) succ K l (v : list Z),
+  represents (combs d) succ -> single_driver (combs d) ->
+  closed succ (seq 0 (length (combs d))) ->
+  sort_fuel succ K (seq 0 (length (combs d))) = Sorted l ->
+  let d' := with_combs d (reorder (combs d) l) in
+  propagateAll d' (propagateAll d' v) = propagateAll d' v.
+Proof. exact propagateAll_idempotent_sorted_thm. Qed.
+
+Theorem C05_clk_split_sorted :
+  forall (St : Type) (d : design St) succ K l (m n : nat) (s : state St),
+  represents (combs d) succ -> single_driver (combs d) ->
+  closed succ (seq 0 (length (combs d))) ->
+  sort_fuel succ K (seq 0 (length (combs d))) = Sorted l ->
+  let d' := with_combs d (reorder (combs d) l) in
+  clk d' (m + n) s = clk d' n (clk d' m s).
+Proof. exact clk_split_sorted_thm. Qed.
+
+Theorem C05_clk_single_steps_sorted :
+  forall (St : Type) (d : design St) succ K l (n : nat) (s : state St),
+  represents (combs d) succ -> single_driver (combs d) ->
+  closed succ (seq 0 (length (combs d))) ->
+  sort_fuel succ K (seq 0 (length (combs d))) = Sorted l ->
+  (0 < n)%nat ->
+  let d' := with_combs d (reorder (combs d) l) in
+  clk d' n s = clk1_times d' n s.
+Proof. exact clk_single_steps_sorted_thm. Qed.
+
 (* the guards are necessary *)
 Theorem C05_clk_split_unguarded_refuted : exists (d : design unit) s, clk d (1 + 1) s <> clk d 1 (clk d 1 s).
 Proof. exact split_needs_guard. Qed.
@@ -144,6 +185,19 @@ Example C05_exchange_runs :
   sts (clk_cycle ex_swap ex_s0) = [2; 1; 1].
 Proof. exact ex_swap_runs. Qed.
 
+(* the hypotheses of the *_sorted theorems hold on a design with a sequential part (a register toggling through NOT
+   and BUF, combinational leaves instantiated sink first; Proofs/C04/Compose.v): the sorter swaps the two leaves; and
+   the sorting matters: on the unsorted list of the same leaves the split fails *)
+Example C05_sorted_hyps_satisfiable :
+  represents (combs tog_bad) tog_bad_succ /\ single_driver (combs tog_bad) /\
+  closed tog_bad_succ (seq 0 (length (combs tog_bad))) /\
+  sort_fuel tog_bad_succ py4hw_loop_limit (seq 0 (length (combs tog_bad))) = Sorted [1; 0]%nat /\
+  clk tog_bad (1 + 1) (init tog_bad [0]) <> clk tog_bad 1 (clk tog_bad 1 (init tog_bad [0])).
+Proof.
+  exact (conj tog_bad_represents (conj tog_bad_single_driver (conj tog_closed
+          (conj (proj1 (proj2 (proj2 (proj2 tog_sorted_hyps)))) tog_bad_split_fails)))).
+Qed.
+
 Print Assumptions C05_order_independent.
 Print Assumptions C05_order_independent_cycle.
 Print Assumptions C05_any_interleaving.
@@ -161,3 +215,8 @@ Print Assumptions C05_clk_split_idem.
 Print Assumptions C05_clk_single_steps.
 Print Assumptions C05_clk_split_unguarded_refuted.
 Print Assumptions C05_order_without_single_writer_refuted.
+Print Assumptions C05_topo_of_ordered.
+Print Assumptions C05_ordered_of_topo.
+Print Assumptions C05_propagateAll_idempotent_sorted.
+Print Assumptions C05_clk_split_sorted.
+Print Assumptions C05_clk_single_steps_sorted.
